@@ -254,6 +254,36 @@ Section Calls.
     - apply REL_err; auto. repeat split; cbn [set_stk stk und fills fbs]; auto.
   Qed.
 
+
+  Lemma REL_without_fill (body body' : rt -> res) a b :
+    vsim a b ->
+    (forall a1 b1, vsim a1 b1 -> novis a1 -> stk a1 = stk a -> hid a1 = (fills a, length (fills a) :: fbs a, depth a) ->
+       hid b1 = (fills b, length (fills b) :: fbs b, depth b) ->
+       REL (hid a1) (hid b1) (body a1) (body' b1)) ->
+    REL (hid a) (hid b) (without_fill_body body a) (without_fill_body body' b).
+  Proof.
+    intros V Hb. pose proof V as (E1 & E2 & E3 & E4). unfold without_fill_body.
+    set (a1 := {| stk := stk a; und := und a; fills := fills a; fbs := length (fills a) :: fbs a; depth := depth a |}).
+    set (b1 := {| stk := stk b; und := und b; fills := fills b; fbs := length (fills b) :: fbs b; depth := depth b |}).
+    assert (V1 : vsim a1 b1) by (repeat split; cbn [a1 b1 stk und fills fbs hd]; congruence).
+    specialize (Hb a1 b1 V1 eq_refl eq_refl eq_refl eq_refl).
+    destruct (body a1) as [x|c x| |]; cbn [REL] in Hb |- *; auto.
+    - destruct Hb as (Hx & y & -> & Vxy & Hy). pose proof Vxy as (F1 & F2 & F3 & F4).
+      unfold hid in Hx, Hy. cbn [a1 b1 fills fbs depth] in Hx, Hy.
+      inversion Hx as [[X1 X2 X3]]. inversion Hy as [[Y1 Y2 Y3]].
+      split; [unfold hid; cbn [fills fbs depth]; rewrite X1, X2, X3; reflexivity|].
+      eexists; split; [reflexivity|]. split.
+      + repeat split; cbn [stk und fills fbs]; auto. rewrite X2, Y2. cbn [tl]. exact E4.
+      + unfold hid; cbn [fills fbs depth]. rewrite Y1, Y2, Y3. reflexivity.
+    - destruct Hb as (Hx & y & -> & Vxy & Hy). pose proof Vxy as (F1 & F2 & F3 & F4).
+      unfold hid in Hx, Hy. cbn [a1 b1 fills fbs depth] in Hx, Hy.
+      inversion Hx as [[X1 X2 X3]]. inversion Hy as [[Y1 Y2 Y3]].
+      split; [unfold hid; cbn [fills fbs depth]; rewrite X1, X2, X3; reflexivity|].
+      eexists; split; [reflexivity|]. split.
+      + repeat split; cbn [stk und fills fbs]; auto. rewrite X2, Y2. cbn [tl]. exact E4.
+      + unfold hid; cbn [fills fbs depth]. rewrite Y1, Y2, Y3. reflexivity.
+  Qed.
+
   Ltac fin_ok :=
     first [ exact I
           | apply REL_ok; [repeat split; cbn [stk und fills fbs depth]; auto; congruence | auto; try reflexivity; try assumption | auto; try reflexivity; try assumption]
@@ -358,6 +388,11 @@ Section Calls.
                 intros Hv; cbn [sets_fill] in Hv; rewrite ?orb_false_r in Hv;
                 eapply novis_hid; [exact Ha | auto]).
       all: try (apply REL_iter_exec; auto; intros; exact I).
+      all: try (match goal with |- REL _ _ (match iter_ao ?mk ?sg with _ => _ end) _ =>
+                  destruct (iter_ao mk sg) as [[na no]|]; [|exact I] end;
+                apply REL_iter_exec; auto; intros a b Vab Ha Hb; rewrite <- Ha, <- Hb;
+                apply REL_without_fill; auto; intros a1 b1 V1 N1 _ _ _;
+                apply (IH_use _ _ IH); auto).
       all: try (norm E1 E2; rewrite ?Efc; auto_rel IH Hn; fail).
       (* fill *)
       destruct (so sg1 =? 0); [exact I|]. auto_rel IH Hn.
